@@ -696,13 +696,16 @@ func (tree *MutableTree) GetVersioned(key []byte, version int64) ([]byte, error)
 			}
 
 			if isFastCacheEnabled {
-				fastNode, _ := tree.ndb.GetFastNode(key)
-				if fastNode == nil && version == tree.ndb.getCachedLatestVersion() {
-					return nil, nil
-				}
+				// if the fast node cannot be read, fall back to the tree below
+				fastNode, err := tree.ndb.GetFastNode(key)
+				if err == nil {
+					if fastNode == nil && version == tree.ndb.getCachedLatestVersion() {
+						return nil, nil
+					}
 
-				if fastNode != nil && fastNode.GetVersionLastUpdatedAt() <= version {
-					return fastNode.GetValue(), nil
+					if fastNode != nil && fastNode.GetVersionLastUpdatedAt() <= version {
+						return fastNode.GetValue(), nil
+					}
 				}
 			}
 		}
